@@ -1,6 +1,9 @@
 ---------------------------- MODULE RevEpochTable ----------------------------
-(* C35 T->I: tabulate the reference (part VERIF_PART: rev | epoch | canread | all) into IOEnv.VERIF_OUT.
-   The inputs are part of the table, so the Go driver evaluates the real code on exactly this domain. *)
+(* C35 T->I: tabulate the reference into IOEnv.VERIF_OUT: the sections selected by VERIF_KINDS (rev 1,
+   str 2, ep 4, cr 8), epochs VERIF_LO..VERIF_HI. The inputs are part of the table, so the Go driver
+   evaluates the real code on exactly this domain.
+   Configs: RevEpochTable.cfg (table only) or RevEpoch_mc.cfg (props/c35.py: the law invariants are
+   checked on the same inputs in the same JVM). *)
 EXTENDS RevEpoch
 TInit == x = <<"rev", 1>>
 ASSUME WriteTable
